@@ -87,6 +87,22 @@ def section(kind, n, body="ctx", src="git"):
         lines = [d, b"index 1111111..2222222 160000", b"--- a/" + f, b"+++ b/" + f,
                  b"@@ -1 +1 @@"] + bl
         info.update(hunk_lines=bl, event="submodule")
+    elif kind in ("submodule_deleted", "submodule_added", "submodule_dirty"):
+        # `git rm sub` / `git submodule add` / a submodule with uncommitted changes, in git's default short format
+        if kind == "submodule_deleted":
+            bl = [b"-Subproject commit " + H40A]
+            lines = [d, b"deleted file mode 160000", b"index 1111111..0000000", b"--- a/" + f, b"+++ /dev/null",
+                     b"@@ -1 +0,0 @@"] + bl
+            info.update(event="deleted", new=b"/dev/null")
+        elif kind == "submodule_added":
+            bl = [b"+Subproject commit " + H40B]
+            lines = [d, b"new file mode 160000", b"index 0000000..2222222", b"--- /dev/null", b"+++ b/" + f,
+                     b"@@ -0,0 +1 @@"] + bl
+            info.update(event="added", old=b"/dev/null")
+        else:
+            bl = [b"-Subproject commit " + H40A, b"+Subproject commit " + H40A + b"-dirty"]
+            lines = [d, b"index 1111111..1111111 160000", b"--- a/" + f, b"+++ b/" + f, b"@@ -1 +1 @@"] + bl
+        info.update(hunk_lines=bl, submodule=True)
     elif kind == "submodule_log":
         # diff.submodule=log / --submodule=log: no `diff --git` line at all
         lines = [b"Submodule " + f + b" 1111111..2222222:", b"  > commit subject one", b"  > second"]
